@@ -115,8 +115,9 @@ Definition extract_output_info (info : option node) (in_macro : bool) : res amap
                      | Grp ch2 =>
                          if in_macro
                          then bind (inner_info (fst p) ch2 in_macro)
-                                   (fun m2 => (* aniso.update(m2) *)
-                                      ROk (fold_right (fun q acc => amap_set acc (fst q) (snd q)) m m2))
+                                   (fun m2 => (* del m2['anisotropy']; aniso.update(m2) *)
+                                      ROk (fold_right (fun q acc => amap_set acc (fst q) (snd q)) m
+                                             (filter (fun q => negb (String.eqb (fst q) "anisotropy")) m2)))
                          else RErr ReaderExc
                      | n => if String.eqb (fst p) "nbAnisotropy"
                             then bind (first_int n) (fun v => ROk (amap_set m "anisotropy" v))
